@@ -32,6 +32,7 @@ type RunSpec struct {
 	DumpSMT     string `json:"dump_smt"`
 	Solver      string `json:"solver"`
 	AbstractTime bool  `json:"abstract_time"`
+	NoPreempt   bool   `json:"no_preempt"`
 }
 
 type Spec struct {
@@ -172,6 +173,9 @@ func main() {
 		c.AbstractTime = r.AbstractTime
 		if r.Preempt > 0 {
 			c.MaxPreempt = r.Preempt
+		}
+		if r.NoPreempt {
+			c.MaxPreempt = 0
 		}
 		if c.SolverBin == "" {
 			c.SolverBin = "z3-new"
